@@ -85,6 +85,13 @@ def literals(t, positive=True):
         return out
     if t[0] == "not":
         return literals(t[1], True)
+    if t[0] == "and":
+        # not (a and b) is (not a) or (not b): one disjunctive literal, the same a test written `not a or not b` gives
+        parts = []
+        for x in t[1]:
+            ls = literals(x, False)
+            parts.append(ls[0] if len(ls) == 1 else ("and", tuple(ls)))
+        return [("or", tuple(parts))]
     return [neg_test(t)]
 
 
